@@ -198,6 +198,11 @@ class _Stop(Exception):
     pass
 
 
+class _CRet(Exception):
+    def __init__(self, value):
+        self.value = value
+
+
 class CInterp(object):
     def __init__(self, tu, v, names=("i1", "i2", "i3")):
         self.tu = tu
@@ -279,7 +284,10 @@ class CInterp(object):
                 # call results compared with 0: merge_output(...) < 0 etc.
                 a0 = strip(a)
                 if a0.k == "CallExpr" and cb == 0:
-                    self.call(a0)
+                    r = self.call(a0)
+                    if isinstance(r, int):
+                        return int({"<": r < 0, ">=": r >= 0, "==": r == 0, "!=": r != 0,
+                                    ">": r > 0, "<=": r <= 0}[op])
                     return int({"<": False, ">=": True, "==": True, "!=": False,
                                 ">": False, "<=": True}[op])
                 # r->len == 0 : result emptiness (epilogue) - not part of a step
@@ -295,6 +303,8 @@ class CInterp(object):
             ks = self._members(e, "key")
             if len(ks) == 2:
                 return self.v.sg(ks[0], ks[1])
+            if k == "ConditionalOperator":
+                return self.ev(e.kids[1] if self.ev(e.kids[0]) else e.kids[2])
             if k == "CallExpr":
                 c = callee(e)
                 if c == ("fn", "PyErr_Occurred"):
@@ -312,7 +322,7 @@ class CInterp(object):
             self.act.outk.append(cu)
             self.act.outv.append(cu)
             return
-        if c[0] == "ptr" and c[1] and c[1].endswith(".next"):
+        if c[0] == "ptr" and c[1] and c[1].endswith((".next", "->next")):
             cu = self._cursor_of(e.kids[0])
             self.act.adv.append(cu)
             return
@@ -321,7 +331,45 @@ class CInterp(object):
             return
         if c == ("fn", "finiSetIteration"):
             return
+        if c[0] == "fn" and c[1] in self.tu.funcs and c[1] != "bucket_merge":
+            return self.inline(c[1], args, e)
         raise AnalysisError("merge table: unrecognised call %s at %s:%s" % (text(e)[:60], e.f, e.l))
+
+    def inline(self, name, args, e):
+        """Interpret a helper of the repository with its parameters bound to
+        the caller's cursors / values."""
+        depth = getattr(self, "depth", 0)
+        if depth >= 4:
+            raise AnalysisError("merge table: call depth at %s (%s:%s)" % (name, e.f, e.l))
+        params = self.tu.params(name)
+        if len(params) != len(args):
+            raise AnalysisError("merge table: %s called with %d arguments" % (name, len(args)))
+        saved_cur, saved_env = dict(self.cur), dict(self.env)
+        for p0, a in zip(params, args):
+            if "SetIteration" in (p0.t or ""):
+                cu = self._cursor_of(a)
+                if cu is None:
+                    raise AnalysisError("merge table: cursor argument %s of %s" % (text(a)[:40], name))
+                self.cur[p0.n] = cu
+            else:
+                try:
+                    self.env[p0.n] = self.ev(a)
+                except AnalysisError:
+                    self.env.pop(p0.n, None)
+        self.depth = depth + 1
+        try:
+            for st in self.tu.body(name).kids:
+                self.stmt(st)
+            ret = None
+        except _CRet as r:
+            ret = r.value
+        finally:
+            self.depth = depth
+            self.cur = saved_cur
+            # locals of the callee do not leak; stores through the caller's
+            # names cannot happen (all by value)
+            self.env = saved_env
+        return ret
 
     def ev_stmt_expr(self, e):
         e0 = strip(e)
@@ -359,9 +407,16 @@ class CInterp(object):
         elif k == "GotoStmt":
             raise _Stop()
         elif k == "ReturnStmt":
+            if getattr(self, "depth", 0) > 0:
+                raise _CRet(self.ev(s.kids[0]) if s.kids else None)
             raise _Stop()
         elif k == "DeclStmt":
-            pass
+            for d in s.kids:
+                if d.k == "VarDecl" and d.kids and d.kids[-1].k != "Absent" and getattr(self, "depth", 0) > 0:
+                    try:
+                        self.env[d.n] = self.ev(d.kids[-1])
+                    except AnalysisError:
+                        self.env.pop(d.n, None)
         elif k.endswith("Stmt"):
             raise AnalysisError("merge table: unrecognised statement %s at %s:%s" % (k, s.f, s.l))
         else:
